@@ -131,6 +131,10 @@ def run(ck, F):
         if g['name'] in CONSTANTS or g['name'] == 'nullptr_cst':
             if 'init' not in g:
                 raise AnalysisBroken(f'initializer of {g["q"]} not in facts')
+            # the type a constant reports is the one its initialiser gives it only as long as the object cannot be written
+            ck.check(R_const, g['name'] + '/immutable', bool(g.get('const') or g.get('constexpr')),
+                     f'{g["q"]} is not a const object (declared `{g["t"]}`): a route that finds it can store another type into it, for every Lexicon '
+                     'of the process', loc=g['loc'])
             st = State()
             st.envs[-1]['this'] = ('sym', 'none')
             res = S.ev(g['init'], st)
